@@ -291,7 +291,9 @@ class SegmMachine(Machine):
                 new = scenes.label_array(rng, dtype='int16')
                 new[0, 0] = -3
             args = {'value': enc(new)}
-        return {'op': 'mut', 'actor': k, 'name': name, 'args': args}
+        return {'op': 'mut', 'actor': k, 'name': name, 'args': args,
+                'repr': rng.pick(['plain', 'plain', 'array', 'tuple',
+                                  'npint', 'smallint'])}
 
     def _gen_query(self, rng, st, k):
         a = st.actors[k]
@@ -480,6 +482,27 @@ class SegmMachine(Machine):
                     raise Inapplicable('scalar label expected')
                 lab = lab[0]
             kw['label'] = lab
+        # the same label numbers in other argument representations
+        rep = op.get('repr', 'plain')
+        for kname in ('labels', 'label', 'new_label', 'start_label',
+                      'border_width'):
+            if kname in kw and rep != 'plain':
+                v = kw[kname]
+                if isinstance(v, list):
+                    if rep == 'array':
+                        kw[kname] = np.array(v, dtype=int) if v else v
+                    elif rep == 'tuple':
+                        kw[kname] = tuple(v)
+                    elif rep == 'npint':
+                        kw[kname] = [np.int64(x) for x in v]
+                    elif rep == 'smallint' and v and max(v) < 127 and \
+                            min(v) >= 0:
+                        kw[kname] = np.array(v, dtype=np.uint8)
+                elif isinstance(v, int) and not isinstance(v, bool):
+                    if rep in ('npint', 'array'):
+                        kw[kname] = np.int64(v)
+                    elif rep == 'smallint' and 0 <= v < 127:
+                        kw[kname] = np.uint8(v)
         before = obj.data.copy()
         if name == 'set_data':
             def fn():
